@@ -16,6 +16,7 @@ mod seams;
 mod sm;
 mod smsim;
 mod store;
+mod watchers;
 mod world;
 
 use std::collections::HashMap;
